@@ -825,3 +825,99 @@ theorem ok_renderList (g : Grammar) (C : Compat g) (hpt : prefixNoTern g) (d : D
 end
 
 end SaVerif.Expr
+
+namespace SaVerif.Expr
+open SaVerif.Expr.Gen SaVerif.Pratt
+
+/-! ### the constructors establish `WG` -/
+
+/-- contexts in which `ColumnElement.self_group` wraps a Boolean-typed element in `AsBoolean` -/
+def boolCtx (a : Op) : Bool := a = .and_ || a = .or_ || a = .asbool_
+
+def NonAtom : SaExpr → Bool
+  | .binary _ _ _ _ _ _ => true
+  | .clist _ _ _ _ _ => true
+  | .unary _ _ _ => true
+  | .grouping _ => true
+  | _ => false
+
+/-- `x.self_group(against=a)` of a well grouped core element is `x` or `Grouping(x)`, is in the
+    fragment, well grouped, and would not be grouped again (idempotence) -/
+theorem selfGroup_core (a : Op) (x : SaExpr) (hc : Core x = true) (hw : WG x = true)
+    (h : boolCtx a = false ∨ NonAtom x = true) :
+    Core (selfGroup (some a) x) = true ∧ WG (selfGroup (some a) x) = true ∧
+      wouldGroup (some a) (selfGroup (some a) x) = false := by
+  unfold selfGroup
+  by_cases hg : wouldGroup (some a) x = true
+  · simp only [hg, if_true]
+    exact ⟨by simpa [Core] using hc, by simpa [WG] using hw, by simp [wouldGroup]⟩
+  · have hg' : wouldGroup (some a) x = false := by simpa using hg
+    simp only [hg', Bool.false_eq_true, if_false]
+    have hcol : columnSelfGroup (some a) x = x ∨ NonAtom x = true := by
+      rcases h with h | h
+      · left
+        simp only [boolCtx, Bool.or_eq_false_iff, decide_eq_false_iff_not] at h
+        simp [columnSelfGroup, h.1.1, h.1.2, h.2]
+      · exact Or.inr h
+    cases x with
+    | binary op l r n esc ty => exact ⟨hc, hw, hg'⟩
+    | clist op cs gr bl ty => exact ⟨hc, hw, hg'⟩
+    | unary op e ty => exact ⟨hc, hw, hg'⟩
+    | grouping e => exact ⟨hc, hw, hg'⟩
+    | col n ty => rcases hcol with h' | h' <;> simp_all [NonAtom]
+    | bind v ty => rcases hcol with h' | h' <;> simp_all [NonAtom]
+    | null => rcases hcol with h' | h' <;> simp_all [NonAtom]
+    | true_ => rcases hcol with h' | h' <;> simp_all [NonAtom]
+    | false_ => rcases hcol with h' | h' <;> simp_all [NonAtom]
+    | asbool e op n => simp [Core] at hc
+    | case_ v w e ty => simp [Core] at hc
+    | cast e ty => simp [Core] at hc
+    | func n a ty => simp [Core] at hc
+    | subq n ty => simp [Core] at hc
+    | inlist v ty eo => simp [Core] at hc
+    | inrows r n eo => simp [Core] at hc
+    | tuple_ es => simp [Core] at hc
+    | absent => simp [Core] at hc
+
+theorem coreBin_not_boolCtx {op : Op} (h : coreBin op = true) : boolCtx op = false := by
+  cases op <;> simp [coreBin] at h <;> rfl
+
+theorem coreUn_not_boolCtx {op : Op} (h : coreUn op = true) : boolCtx op = false := by
+  cases op <;> simp [coreUn] at h <;> rfl
+
+/-- **mkBinary_WG**: `BinaryExpression(left, right, op)` over well grouped core operands is a
+    well grouped core element -/
+theorem mkBinary_WG (l r : SaExpr) (op : Op) (ty : Ty) (n : Option Op) (hop : coreBin op = true)
+    (hcl : Core l = true) (hwl : WG l = true) (hcr : Core r = true) (hwr : WG r = true) :
+    Core (mkBinary l r op ty n none) = true ∧ WG (mkBinary l r op ty n none) = true := by
+  obtain ⟨c1, w1, g1⟩ := selfGroup_core op l hcl hwl (Or.inl (coreBin_not_boolCtx hop))
+  obtain ⟨c2, w2, g2⟩ := selfGroup_core op r hcr hwr (Or.inl (coreBin_not_boolCtx hop))
+  simp [mkBinary, Core, WG, hop, c1, c2, w1, w2, g1, g2]
+
+/-- **negImpl_WG** / `UnaryExpression(x, operator=op)` -/
+theorem unary_WG (x : SaExpr) (op : Op) (ty : Ty) (hop : coreUn op = true)
+    (hc : Core x = true) (hw : WG x = true) :
+    Core (.unary op (selfGroup (some op) x) ty) = true ∧
+      WG (.unary op (selfGroup (some op) x) ty) = true := by
+  obtain ⟨c1, w1, g1⟩ := selfGroup_core op x hc hw (Or.inl (coreUn_not_boolCtx hop))
+  simp [Core, WG, hop, c1, w1, g1]
+
+theorem map_selfGroup_core (op : Op) (hb : boolCtx op = false) :
+    ∀ cs : List SaExpr, CoreList cs = true → (∀ c ∈ cs, WG c = true) →
+      CoreList (cs.map (selfGroup (some op))) = true ∧ WGList op (cs.map (selfGroup (some op))) = true
+  | [], _, _ => ⟨rfl, rfl⟩
+  | c :: cs, hc, hw => by
+    simp only [CoreList, Bool.and_eq_true] at hc
+    obtain ⟨c1, w1, g1⟩ := selfGroup_core op c hc.1 (hw c (by simp)) (Or.inl hb)
+    obtain ⟨c2, w2⟩ := map_selfGroup_core op hb cs hc.2 (fun x hx => hw x (by simp [hx]))
+    simp [List.map_cons, CoreList, WGList, c1, w1, g1, c2, w2]
+
+/-- **constructForList_WG**: `ExpressionClauseList._construct_for_list(op, …)` -/
+theorem constructForList_WG (op : Op) (ty : Ty) (cs : List SaExpr) (hop : coreList op = true)
+    (hb : boolCtx op = false) (hlen : 2 ≤ cs.length) (hc : CoreList cs = true)
+    (hw : ∀ c ∈ cs, WG c = true) :
+    Core (constructForList op ty cs) = true ∧ WG (constructForList op ty cs) = true := by
+  obtain ⟨c1, w1⟩ := map_selfGroup_core op hb cs hc hw
+  simp [constructForList, Core, WG, hop, c1, w1, hlen]
+
+end SaVerif.Expr
